@@ -26,6 +26,7 @@ class Gen:
     self.bases_of = {}   # class name -> list of base names (own classes only)
     self.generics = []   # names of Generic[T] classes
     self.n = 0
+    self.outside_objs = []
     self.local = {}      # upstream module name -> name it is bound to here
     self.alias = alias   # preferred `import m as <alias>` name (collisions
                          # between modules of one chain are wanted)
@@ -291,8 +292,18 @@ class Gen:
     new_nested = None
     if r.random() < 0.25:
       inner = self.fresh("N")
+      others = [c[0] for c in self.classes]
+      namesake = None
+      if others and r.random() < 0.35:
+        # a nested class with the short name of a module-level class that it
+        # does not inherit from, referring to that module-level class
+        inner = namesake = r.choice(others)
       self.emit("  class %s:" % inner)
       self.emit("    v = %s" % self.scalar())
+      if namesake:
+        self.emit("    fb = %s()" % namesake)
+        self.emit("    def dflt(self):")
+        self.emit("      return {1: %s()}" % namesake)
       if r.random() < 0.5:
         self.emit("    def w(self):")
         self.emit("      return %s" % self.scalar())
@@ -558,6 +569,8 @@ class Gen:
       self.emit("class %s(Generic[T]):" % g)
       self.emit("  def __init__(self, v: T):")
       self.emit("    self.v = v")
+      self.emit("    self.tag = None")
+      self.emit("    self.hits = 0")
       self.emit("  def get(self) -> T:")
       self.emit("    return self.v")
       if r.random() < 0.6:
@@ -601,6 +614,11 @@ class Gen:
       c = self.fresh("K")
       self.emit("%s = %s" % (c, mk()))
       self.consts.append((c, "const"))
+      if k < 0.65 and r.random() < 0.6:
+        # an attribute that does not involve T, re-assigned from outside
+        at = r.choice(["tag", "hits"])
+        self.emit("%s.%s = %s" % (c, at, r.choice(["'s'", "1.5", "[1]", "b'x'"])))
+        self.outside_objs.append((c, at))
     if r.random() < 0.5:
       f = self.fresh("f")
       self.emit("def %s():" % f)
@@ -657,6 +675,7 @@ class Gen:
       self.emit("%s = %s()" % (o, cn))
       self.emit("%s.value = %s" % (o, vals[i % len(vals)] if r.random() < 0.8 else self.scalar()))
       self.consts.append((o, "inst"))
+      self.outside_objs.append((o, "value"))
 
   def gen_alias(self):
     r = self.r
@@ -770,10 +789,19 @@ class Gen:
       else:
         self.gen_const()
     # module-level instances so that attributes are reachable from outside
+    insts = []
     for cname, attrs, methods in self.classes:
       if r.random() < 0.7:
         self.emit("inst_%s = %s()" % (cname, cname))
         self.consts.append(("inst_" + cname, "inst"))
+        insts.append(("inst_" + cname, attrs))
+    # twins: the module reads some of its own instances' attributes itself, so
+    # that its stub also records what ITS analysis inferred for such a read
+    pairs = [(i, a) for i, attrs in insts for a in attrs
+             if a[0] in "ai" or a == "value"]
+    pairs += list(self.outside_objs)
+    for i, a in r.sample(pairs, min(len(pairs), 6)):
+      self.emit("tw_%s__%s = %s.%s" % (i, a, i, a))
     return "\n".join(self.lines) + "\n"
 
   def exports(self):
